@@ -196,3 +196,58 @@ class MergeForLoops_contract:
 
     def canary(sh, a, ret):
         check("canary: merged bound equals the parent bound", ret["new_ub"] == a[1])
+
+
+# =====================================================================================
+# snaxc/transforms/reuse_memref_allocs.py: the size lookup used when hoisting allocations / dim queries
+# =====================================================================================
+from pyvc.api import mk_opresult  # noqa: E402
+from xdsl.dialects.builtin import DYNAMIC_INDEX  # noqa: E402
+
+
+class SubviewView:
+    """view of memref.subview: static_sizes (DenseArray with DYNAMIC_INDEX markers) and the dynamic size operands"""
+
+    def __init__(self, static_sizes, sizes):
+        self._static = tuple(static_sizes)
+        self.sizes = tuple(sizes)
+        self.static_sizes = self
+
+    def get_values(self):
+        return self._static
+
+
+def _masks(n):
+    import itertools
+    return ["".join(m) for m in itertools.product("sd", repeat=n)]
+
+
+@contract
+class get_subview_dim_contract:
+    """the size of dimension `index` of a subview: the static size, or the dynamic size operand of THAT dimension"""
+    target = "snaxc.transforms.reuse_memref_allocs.MoveMemrefDims.match_and_rewrite::get_subview_dim"
+    shapes = [dict(mask=m, index=i) for n in (1, 2, 3, 4) for m in _masks(n) for i in range(n)]
+    quick = lambda sh: len(sh["mask"]) <= 3
+    total = True
+    compare_ret = False
+
+    def args(sh, sym):
+        static, dyn = [], []
+        for k, c in enumerate(sh["mask"]):
+            if c == "s":
+                static.append(sym.int(f"n{k}", 0))
+            else:
+                static.append(DYNAMIC_INDEX)
+                dyn.append(mk_opresult(sym.int(f"d{k}", 0), IndexType()))
+        return [SubviewView(static, dyn), sh["index"]]
+
+    def ensures(sh, a, ret):
+        sv, i = a
+        if sh["mask"][i] == "s":
+            check("static dimension: the static size", ret == sv.get_values()[i])
+        else:
+            k = len([c for c in sh["mask"][:i] if c == "d"])
+            check("dynamic dimension: the size operand that belongs to this dimension", ret is sv.sizes[k])
+
+    def canary(sh, a, ret):
+        check("canary: always the first dynamic size", len(a[0].sizes) > 0 and ret is a[0].sizes[0])
